@@ -5,6 +5,8 @@ package proc
 import (
 	"encoding/json"
 	"fmt"
+	"os"
+	"path/filepath"
 	"regexp"
 	"strconv"
 	"strings"
@@ -342,6 +344,21 @@ func c15Session(t *rapid.T) {
 	}
 	s := StartSession(t, SessionCfg{Args: args, Input: input, Width: cfg.width, Height: cfg.height})
 	defer s.Close()
+	// a second input of the same shape for reloads (same count, same indices, other texts)
+	alt := make([]string, n)
+	for i, l := range lines {
+		alt[i] = strings.Replace(l, "item-", "ITEM-", 1)
+		if i%3 == 0 {
+			alt[i] = fmt.Sprintf("other-%03d ab a1", i)
+		}
+	}
+	altFile := filepath.Join(s.Dir, "alt-input")
+	origFile := filepath.Join(s.Dir, "input")
+	os.WriteFile(altFile, []byte(strings.Join(alt, "\n")+"\n"), 0o644)
+	if n == 0 {
+		os.WriteFile(altFile, nil, 0o644)
+	}
+	loadedAlt := false
 	history := []string{fmt.Sprintf("fzf %q  (%d lines, window %dx%d)", args, n, cfg.width, cfg.height)}
 	sawTrunc, partial := false, false
 	verify := func(step string) {
@@ -408,7 +425,20 @@ func c15Session(t *rapid.T) {
 	acts := []string{"up", "down", "up", "down", "page-up", "page-down", "half-page-down", "first", "last", "toggle", "toggle-down", "toggle-up", "select-all", "deselect-all", "toggle-all", "clear-selection", "pos(3)", "pos(-2)"}
 	for i := 0; i < nsteps; i++ {
 		var body string
-		switch rapid.SampledFrom([]string{"nav", "nav", "nav", "query"}).Draw(t, "kind") {
+		switch rapid.SampledFrom([]string{"nav", "nav", "nav", "nav", "query", "query", "reload"}).Draw(t, "kind") {
+		case "reload":
+			loadedAlt = !loadedAlt
+			src, cur := origFile, lines
+			if loadedAlt {
+				src, cur = altFile, alt
+			}
+			body = "reload(cat " + src + ")"
+			if rapid.Bool().Draw(t, "reloadSync") {
+				body = "reload-sync(cat " + src + ")"
+			}
+			if nhl > 0 {
+				cfg.headerLines = cur[:nhl]
+			}
 		case "nav":
 			k := rapid.IntRange(1, 3).Draw(t, "chain")
 			var parts []string
